@@ -21,13 +21,10 @@ import (
 	"verifharness/internal/vh"
 )
 
-var srv *ucon.Server
-
 func setup(seed uint64) {
 	quiet.Silence()
 	params.InitNetworkId(params.NetworkIdForTestCase)
 	crand.Reader = &seededReader{vh.NewRNG(seed ^ 0xC01)}
-	srv, _ = ucon.NewVRFServer(nil)
 }
 
 // classify maps the real verifier's error to a small enum.
@@ -66,9 +63,58 @@ type concrete struct {
 	lb, certLb                          *lookBack
 	seedHeader, certHeader, parent, hdr *types.Header
 	entry                               string
+	hdr0                                *types.Header // replay of a stateful sequence: the honest twin H
+	seq                                 []seqStep
 }
 
-func goVerify(x *concrete) (cls string) {
+func newServer() *ucon.Server {
+	s, _ := ucon.NewVRFServer(nil)
+	return s
+}
+
+// goVerify judges one header on a FRESH engine (no state from earlier verifications).
+func goVerify(x *concrete) string { return goVerifyOn(newServer(), x, x.entry) }
+
+// chainFor builds the stub chain a header needs for the VerifySeal / VerifyHeader(s) entries. withParent also
+// installs the parent at number-1 (needed by verifyCascadingFields); ok = false when that slot is a look-back header.
+func chainFor(x *concrete, withParent bool) (ch *stubChain, ok bool) {
+	var certRd state.ValidatorReader
+	if x.certLb != nil {
+		certRd = x.certLb
+	}
+	n := x.hdr.Number.Uint64()
+	ch = &stubChain{yp: &params.YouParams{Version: 1, CaravelParams: x.cp}, headers: map[uint64]*types.Header{}, readers: map[common.Hash]state.ValidatorReader{}}
+	back := func(k uint64) uint64 {
+		if n > k {
+			return n - k
+		}
+		return 0
+	}
+	put := func(num uint64, h *types.Header) {
+		if _, ok := ch.headers[num]; !ok && h != nil {
+			ch.headers[num] = h
+		}
+	}
+	put(back(x.cp.SeedLookBack), x.seedHeader)
+	put(back(x.cp.StakeLookBack), x.seedHeader)
+	put(back(params.ACoCHTFrequency), x.certHeader)
+	put(back(2*params.ACoCHTFrequency), x.certHeader)
+	ch.readers[x.seedHeader.ValRoot] = x.lb
+	if x.certHeader != nil && certRd != nil {
+		ch.readers[x.certHeader.ValRoot] = certRd
+	}
+	if withParent {
+		if _, taken := ch.headers[n-1]; taken || n == 0 {
+			return ch, false
+		}
+		ch.headers[n-1] = x.parent
+	}
+	return ch, true
+}
+
+// goVerifyOn judges a header on the given engine instance through one of the entry points:
+// side = VerifySideChainHeader, seal = VerifySeal, header = VerifyHeader(seal=true), headers = VerifyHeaders([h]).
+func goVerifyOn(srv *ucon.Server, x *concrete, entry string) (cls string) {
 	defer func() {
 		if r := recover(); r != nil {
 			cls = "crash"
@@ -77,33 +123,23 @@ func goVerify(x *concrete) (cls string) {
 			}
 		}
 	}()
+	switch entry {
+	case "seal":
+		ch, _ := chainFor(x, false)
+		return classify(srv.VerifySeal(ch, x.hdr))
+	case "header":
+		ch, _ := chainFor(x, true)
+		return classify(srv.VerifyHeader(ch, x.hdr, true))
+	case "headers":
+		ch, _ := chainFor(x, true)
+		abort, results := srv.VerifyHeaders(ch, []*types.Header{x.hdr}, []bool{true})
+		err := <-results
+		close(abort)
+		return classify(err)
+	}
 	var certRd state.ValidatorReader
 	if x.certLb != nil {
 		certRd = x.certLb
-	}
-	if x.entry == "seal" {
-		n := x.hdr.Number.Uint64()
-		ch := &stubChain{yp: &params.YouParams{Version: 1, CaravelParams: x.cp}, headers: map[uint64]*types.Header{}, readers: map[common.Hash]state.ValidatorReader{}}
-		back := func(k uint64) uint64 {
-			if n > k {
-				return n - k
-			}
-			return 0
-		}
-		put := func(num uint64, h *types.Header) {
-			if _, ok := ch.headers[num]; !ok && h != nil {
-				ch.headers[num] = h
-			}
-		}
-		put(back(x.cp.SeedLookBack), x.seedHeader)
-		put(back(x.cp.StakeLookBack), x.seedHeader)
-		put(back(params.ACoCHTFrequency), x.certHeader)
-		put(back(2*params.ACoCHTFrequency), x.certHeader)
-		ch.readers[x.seedHeader.ValRoot] = x.lb
-		if x.certHeader != nil && certRd != nil {
-			ch.readers[x.certHeader.ValRoot] = certRd
-		}
-		return classify(srv.VerifySeal(ch, x.hdr))
 	}
 	blk := types.NewBlockWithHeader(x.hdr)
 	par := types.NewBlockWithHeader(x.parent)
@@ -217,6 +253,10 @@ func concreteFromReplay(body []string) (*concrete, []string, error) {
 			continue
 		}
 		f := strings.Fields(l)
+		if len(f) == 3 && f[0] == "S" {
+			x.seq = append(x.seq, seqStep{i64(f[1]), f[2]})
+			continue
+		}
 		if len(f) < 2 || f[0] != "G" {
 			continue
 		}
@@ -240,6 +280,8 @@ func concreteFromReplay(body []string) (*concrete, []string, error) {
 			x.parent, err = decHdr(f[2])
 		case "header":
 			x.hdr, err = decHdr(f[2])
+		case "header0":
+			x.hdr0, err = decHdr(f[2])
 		}
 		if err != nil {
 			return nil, nil, err
@@ -301,7 +343,7 @@ func coarse(s string) string {
 }
 
 // evaluate runs one realised case through Go, Lean and the oracle. expectOK: the case is an honest one.
-func (rn *runner) evaluate(c *caseT, t *truth, honest bool) {
+func (rn *runner) evaluate(c *caseT, t *truth, honest bool) ([]string, string) {
 	res := rn.c.Res
 	c.fillChoose(t)
 	lines := append(caseLines(c, t), c.ct.lines()...)
@@ -346,6 +388,138 @@ func (rn *runner) evaluate(c *caseT, t *truth, honest bool) {
 	res.Count(canon, nontrivial)
 	if len(res.Samples) < 4 && (honest || len(res.Samples) > 0) {
 		res.Sample(map[string]interface{}{"case": name, "validators": len(c.lb.specs), "votes": len(t.ucVotes), "go": gcls, "lines": lines[:min(len(lines), 14)]})
+	}
+	return lines, gcls
+}
+
+// ---- stateful verifier stream ------------------------------------------------------------------------------
+// The ucon header hash omits Validator / Certificate / Signature, so every vote, aggregate, certificate and seal
+// mutation of an honest header H is a TWIN H' with the same hash. One engine instance verifies H and its twins in
+// both orders through all entry points; the verdict on any header must not depend on what the engine verified
+// before: it is compared with the verdict of a fresh engine (and through that with the model), and an accepted
+// twin is judged by the property oracle. H itself is verified repeatedly (idempotence).
+
+type twinT struct {
+	c     *caseT
+	x     *concrete
+	lines []string
+	name  string
+}
+
+var allEntries = []string{"side", "seal", "header", "headers"}
+
+func usableEntry(x *concrete, e string) string {
+	if e == "header" || e == "headers" {
+		if _, ok := chainFor(x, true); !ok {
+			return "seal"
+		}
+	}
+	return e
+}
+
+type seqStep struct {
+	which int // 0 = H, 1 = the twin
+	entry string
+}
+
+// runSeq verifies the steps on ONE engine and returns, per step, the verdict there and on a fresh engine.
+func runSeq(h, t *concrete, steps []seqStep) (got, fresh []string) {
+	srv := newServer()
+	memo := map[string]string{}
+	for _, st := range steps {
+		x := h
+		if st.which == 1 {
+			x = t
+		}
+		got = append(got, goVerifyOn(srv, x, st.entry))
+		k := fmt.Sprintf("%d %s", st.which, st.entry)
+		if _, ok := memo[k]; !ok {
+			memo[k] = goVerifyOn(newServer(), x, st.entry)
+		}
+		fresh = append(fresh, memo[k])
+	}
+	return
+}
+
+func seqText(steps []seqStep, got, fresh []string) string {
+	var parts []string
+	for i, st := range steps {
+		n := "H"
+		if st.which == 1 {
+			n = "twin"
+		}
+		parts = append(parts, fmt.Sprintf("%s via %s -> %s (fresh engine: %s)", n, st.entry, got[i], fresh[i]))
+	}
+	return strings.Join(parts, "; ")
+}
+
+func (rn *runner) stateful(h *twinT, tw *twinT, idem bool) {
+	res := rn.c.Res
+	r := rn.c.R
+	pick := func(x *concrete) string { return usableEntry(x, allEntries[r.Intn(len(allEntries))]) }
+	var seqs [][]seqStep
+	if tw != nil {
+		seqs = append(seqs,
+			[]seqStep{{0, pick(h.x)}, {1, pick(tw.x)}},                   // H, then the twin
+			[]seqStep{{1, pick(tw.x)}, {0, pick(h.x)}, {1, pick(tw.x)}}) // twin, H, twin again
+	}
+	if idem {
+		seqs = append(seqs, []seqStep{{0, pick(h.x)}, {0, pick(h.x)}, {0, pick(h.x)}})
+	}
+	for _, steps := range seqs {
+		t := h
+		if tw != nil {
+			t = tw
+		}
+		got, fresh := runSeq(h.x, t.x, steps)
+		res.Dist("stateful-sequence")
+		res.TracesVsImpl++
+		res.Count(fmt.Sprintf("seq %v %s", steps, strings.Join(t.lines, "\n")), true)
+		bad := -1
+		for i := range steps {
+			if got[i] != fresh[i] {
+				bad = i
+				break
+			}
+		}
+		// the model's verdict for the last step (entries header/headers = seal + cascading checks that these inputs pass)
+		last := steps[len(steps)-1]
+		if rn.drv != nil && bad < 0 {
+			x := h
+			if last.which == 1 {
+				x = t
+			}
+			me := last.entry
+			if me != "side" {
+				me = "seal"
+			}
+			ls := append(append([]string{}, x.lines[:len(x.lines)-1]...), "RUN "+me)
+			if m := rn.ask(ls); coarse(m) != got[len(got)-1] {
+				bad = len(steps) - 1
+				fresh[bad] = "model: " + m
+			}
+		}
+		if bad < 0 {
+			continue
+		}
+		what := "the verdict on a header depends on what the engine verified before: " + seqText(steps, got, fresh)
+		x := h
+		if steps[bad].which == 1 {
+			x = t
+		}
+		if w, _ := oracle(parseSym(x.lines), got[bad]); w != "" {
+			what += "; " + w
+		}
+		rn.nrep++
+		body := replayBody(t.c, t.lines)
+		body = append(body, "G header0 "+hexRLP(h.x.hdr))
+		for _, st := range steps {
+			body = append(body, fmt.Sprintf("S %d %s", st.which, st.entry))
+		}
+		rp := vh.WriteReplay(rn.c.ReplayDir, "C01", fmt.Sprintf("stateful-%d", rn.nrep), rn.c.Seed,
+			[]string{"oracle: " + what, "case: honest header H, then twin " + t.name + " (same header hash)"}, body)
+		res.Fail("oracle", "", what+" [twin "+t.name+"]", rp)
+		res.Dist("oracle:engine-history")
 	}
 }
 
@@ -479,7 +653,7 @@ func run(c *vh.Ctx) error {
 	}
 
 	// ---- headers ----------------------------------------------------------------------------------------
-	nWorlds := c.N(50, 420)
+	nWorlds := c.N(40, 300)
 	if c.Search {
 		nWorlds *= 2
 	}
@@ -536,7 +710,17 @@ func run(c *vh.Ctx) error {
 					res.Fail("crash", "", "harness packing differs from the engine's PackVotes: "+msg, "")
 				}
 			}
-			rn.evaluate(hc, t, enough)
+			hLines, hCls := rn.evaluate(hc, t, enough)
+			var hTwin *twinT
+			var twins []*twinT
+			if hCls == "ok" {
+				hTwin = &twinT{c: hc, x: hc.concrete(), lines: hLines, name: "honest"}
+			}
+			addTwin := func(m *caseT, lines []string) {
+				if hTwin != nil && m.hash == hc.hash && !m.badParent && len(m.muts) > 0 {
+					twins = append(twins, &twinT{c: m, x: m.concrete(), lines: lines, name: strings.Join(m.muts, "+")})
+				}
+			}
 			if hc.isCertRound() {
 				res.Dist("cert-round")
 			}
@@ -556,12 +740,14 @@ func run(c *vh.Ctx) error {
 					sum -= uint64(nq.uc.votes[last].votes)
 					dropVote(nq, &nq.uc, last)
 				}
-				rn.evaluate(nq, nq.realise(c.R), true)
+				nl, _ := rn.evaluate(nq, nq.realise(c.R), true)
+				addTwin(nq, nl)
 				if len(nq.uc.votes) > 0 {
 					bq := nq.clone()
 					bq.muts = []string{"below-quorum"}
 					dropVote(bq, &bq.uc, len(bq.uc.votes)-1)
-					rn.evaluate(bq, bq.realise(c.R), false)
+					bl, _ := rn.evaluate(bq, bq.realise(c.R), false)
+					addTwin(bq, bl)
 				}
 				res.Dist("class:near-quorum")
 			}
@@ -585,7 +771,21 @@ func run(c *vh.Ctx) error {
 				if !ok {
 					continue
 				}
-				rn.evaluate(m, m.realise(c.R), false)
+				ml, _ := rn.evaluate(m, m.realise(c.R), false)
+				addTwin(m, ml)
+			}
+			// stateful stream: H and up to nTw same-hash twins on one engine, both orders, all entries; H repeatedly
+			if hTwin != nil {
+				res.DistN("same-hash-twins", len(twins))
+				nTw := c.N(2, 4)
+				for k := 0; k < nTw && len(twins) > 0; k++ {
+					i := c.R.Intn(len(twins))
+					rn.stateful(hTwin, twins[i], k == 0)
+					twins = append(twins[:i], twins[i+1:]...)
+				}
+				if len(twins) == 0 {
+					rn.stateful(hTwin, nil, true)
+				}
 			}
 		}
 	}
@@ -614,6 +814,17 @@ func replayWith(rn *runner, body, comments []string) (bool, string) {
 			}
 		}
 		return false, "unreadable replay: " + err.Error()
+	}
+	if len(x.seq) > 0 && x.hdr0 != nil {
+		h := *x
+		h.hdr = x.hdr0
+		got, fresh := runSeq(&h, x, x.seq)
+		for i := range got {
+			if got[i] != fresh[i] {
+				return true, "the verdict on a header depends on what the engine verified before: " + seqText(x.seq, got, fresh)
+			}
+		}
+		return false, "engine history does not matter: " + seqText(x.seq, got, fresh)
 	}
 	gcls := goVerify(x)
 	var msgs []string
